@@ -12,6 +12,8 @@ import AnySyncModel.Driver.KV
 import AnySyncModel.Driver.NodeConf
 import AnySyncModel.Driver.Space
 import AnySyncModel.Driver.Auth
+import AnySyncModel.Driver.Handshake
+import AnySyncModel.Driver.Bytes
 /-!
 `modeld <area>`: reads one operation per line on stdin, prints exactly one line per operation.
 Stateless areas expose `step : String → String`; stateful areas expose
@@ -52,4 +54,6 @@ def main (args : List String) : IO UInt32 := do
   | ["nodeconf"] => loopPure stdin stdout Driver.NodeConf.step; return 0
   | ["space"] => loopPure stdin stdout Driver.Space.step; return 0
   | ["auth"] => loopState stdin stdout Driver.Auth.step Driver.Auth.init; return 0
+  | ["handshake"] => loopPure stdin stdout Driver.Handshake.step; return 0
+  | ["bytes"] => loopPure stdin stdout Driver.Bytes.step; return 0
   | _ => IO.eprintln s!"modeld: unknown area {args}"; return 2
